@@ -317,7 +317,7 @@ func (tx *Tx) Inter(keys ...string) ([]core.Value, error) {
 		return nil, nil
 	}
 	query, keyArgs := sqlx.ExpandIn(sqlInter, ":keys", keys)
-	args := append(keyArgs, time.Now().UnixMilli(), len(keys))
+	args := append(keyArgs, time.Now().UnixMilli(), sqlx.CountDistinct(keys))
 	return tx.selectElems(query, args)
 }
 
@@ -348,7 +348,7 @@ func (tx *Tx) InterStore(dest string, keys ...string) (int, error) {
 
 	// Intersect the source sets and store the result.
 	query, keyArgs := sqlx.ExpandIn(sqlInterStore, ":keys", keys)
-	args := slices.Concat([]any{destID}, keyArgs, []any{now, len(keys)})
+	args := slices.Concat([]any{destID}, keyArgs, []any{now, sqlx.CountDistinct(keys)})
 	return tx.store(query, args)
 }
 
